@@ -424,6 +424,16 @@ def shard_logger_extra(args):
         acc.outcome(("odd-template", problem is None))
         if problem:
             acc.violation(problem[0], problem[1], case, size=(1, len(template)))
+    # (1b) records are kept by handlers and formatted later: each one keeps describing its
+    #      own write
+    for writes in itertools.permutations(WRITES, 2):
+        for template in (None, "v=%(value)s d=%(demand)s"):
+            case = {"kind": "kept-records", "writes": list(writes), "template": template}
+            problem = run_logger_extra(case)
+            acc.case(nontrivial_key=repr(case), sample=case if template else None)
+            acc.outcome(("kept-records", problem is None))
+            if problem:
+                acc.violation(problem[0], problem[1], case, size=(2, 1))
     # (2) the configured logger is the one configured *now*: renaming takes effect
     names = ["verif.c16.first", "verif.c16.second", None]
     for first, second, level in itertools.product(names, names, LEVELS):
@@ -450,6 +460,48 @@ def run_logger_extra(case):
         return ("logger:unknown-field-accepted",
                 "template %r (an unknown field) was accepted by the constructor"
                 % case["template"])
+    if case["kind"] == "kept-records":
+        kept = []
+
+        class Keep(logging.Handler):
+            def emit(self, record):
+                kept.append(record)
+
+        logger = logging.getLogger("verif.c16.kept")
+        handler = Keep(level=1)
+        saved_state = (logger.level, logger.propagate)
+        logger.addHandler(handler)
+        logger.setLevel(1)
+        logger.propagate = False
+        try:
+            kwargs = {"message": case["template"]} if case["template"] else {}
+            decorated = Logger(pool, name="verif.c16.kept", **kwargs)
+            expected = []
+            for value in case["writes"]:
+                expected.append((value, pool.demand))
+                decorated.demand = value
+            if len(kept) != len(expected):
+                return ("logger:record-count", "%d records for %d writes"
+                        % (len(kept), len(expected)))
+            for record, (value, before) in zip(kept, expected):
+                args = record.args
+                if args.get("value") != value or args.get("demand") != before:
+                    return ("logger:kept-record-rewritten",
+                            "writes %r through one Logger: the record of the write of %r later "
+                            "says value=%r demand=%r (expected demand %r)"
+                            % (case["writes"], value, args.get("value"), args.get("demand"),
+                               before))
+                text = record.getMessage()
+                if str(value) not in text:
+                    return ("logger:kept-record-rewritten",
+                            "the record of the write of %r later formats as %r" % (value, text))
+        except Exception as err:  # noqa: B902
+            return ("logger:kept-records-raises", "%s: %s" % (type(err).__name__, err))
+        finally:
+            logger.removeHandler(handler)
+            logger.setLevel(saved_state[0])
+            logger.propagate = saved_state[1]
+        return None
     collect = _Collect()
     default_name = type(pool).__qualname__
     loggers = [logging.getLogger(n) for n in ("verif.c16.first", "verif.c16.second",
@@ -551,7 +603,7 @@ def replay(data):
     case = {key: value for key, value in data.items() if key in ("stack", "configs")}
     with warnings.catch_warnings():
         warnings.simplefilter("ignore")
-        if data["kind"] in ("odd-template", "rename"):
+        if data["kind"] in ("odd-template", "rename", "kept-records"):
             problem = run_logger_extra(data)
             return problem and problem[1]
         if data["kind"] == "construct":
